@@ -172,6 +172,10 @@ fn defs() -> Vec<Def> {
     ] {
         v.push(Def { text: f.to_string(), kind: "func" });
     }
+    // functions whose names need care in a listing: reserved words, blanks, pattern characters
+    for f in ["\\if() { p kw; }", "\\done() { p kw2; }", "\"a b\"() { p sp; }", "'f*'() { p st; }", "f\\$x() { p dl; }"] {
+        v.push(Def { text: f.to_string(), kind: "func" });
+    }
     for o in ["allexport", "noclobber", "noglob", "nounset", "pipefail", "errexit"] {
         v.push(Def { text: format!("set -o {o}"), kind: "option" });
     }
@@ -333,8 +337,16 @@ fn roundtrip(ctx: &Ctx, history: &[&Def], runs: &AtomicU64) {
             runs.fetch_add(1, Relaxed);
             let describe = || json!({"definitions": defs_text, "printer": pr.cmd, "listing": listings, "script2": script2});
             let Some(snap2) = snap_of(&r2, "s2") else {
+                // two recorded defects of function listings have keys of their own
+                let sub = if r2.stderr.contains("`function` keyword is not yet supported") {
+                    ":function-keyword-not-readable"
+                } else if listings.iter().any(|l| l.lines().any(|line| RESERVED.iter().any(|k| line.starts_with(&format!("{k}()"))))) {
+                    ":reserved-word-name-printed-bare"
+                } else {
+                    ""
+                };
                 ctx.violation(
-                    &format!("c07:listing-{}", pr.cmd.replace(' ', "_")),
+                    &format!("c07:listing-{}{sub}", pr.cmd.replace(' ', "_")),
                     &format!("evaluating the output of `{}` failed: stderr={:?}; listing={listings:?}", pr.cmd, r2.stderr),
                     describe(),
                 );
@@ -354,6 +366,8 @@ fn roundtrip(ctx: &Ctx, history: &[&Def], runs: &AtomicU64) {
         }
     }
 }
+
+const RESERVED: [&str; 16] = ["if", "then", "else", "elif", "fi", "do", "done", "case", "esac", "while", "until", "for", "in", "{", "}", "!"];
 
 pub fn replay(case: &serde_json::Value) -> i32 {
     if let Some(s) = case["string"].as_str() {
